@@ -123,6 +123,11 @@ class Encoded:
         self.dm = dm
         self.ctx = Ctx()
         self.event = event or Event(dm, N)
+        if "wideint" in prog.tags:
+            # programs whose only integer arithmetic is `**`: integers range over the whole 32-bit int and the C++ side's
+            # int +,-,* wrap (two's complement, what the machine does on overflow); python integers do not
+            self.event.int_bound = (1 << 31) - 1
+            patches = tuple(patches) + ("wide_int",)
         self.slots = frontend.package_slots(pkg)
         main = self.slots["query.cxx" if pkg.backend == "atlas" else "Analyzer.cc"]
         hdr = self.slots["query.h"] if pkg.backend == "atlas" else main
